@@ -135,6 +135,9 @@ package syntax
 //@   loop 2 invariant l.cursor == l.Lines[len(l.Lines)-1].StartIdx + count - 1 && charAt(l, l.cursor) == chn && (chn == RuneSP || chn == RuneTAB)
 //@   loop 1 decreases len(l.Source) - l.cursor
 //@   loop 2 decreases len(l.Source) - l.cursor
+// one pass = one physical line break = exactly one new line entry, starting just after the break
+//@   loop 1 step [one-entry-per-break] len(l.Lines) == prev(len(l.Lines)) + 1 && l.Lines[len(l.Lines)-1].StartIdx == prev(l.cursor) + breakLen(prev(charAt(l, l.cursor)), prev(charAt(l, l.cursor + 1)))
+//@   loop 1 exitstep [one-entry-per-break-last] len(l.Lines) == prev(len(l.Lines)) + 1 && l.Lines[len(l.Lines)-1].StartIdx == prev(l.cursor) + breakLen(prev(charAt(l, l.cursor)), prev(charAt(l, l.cursor + 1)))
 
 //@ method (*Lexer).ParseCRLF
 //@   requires lexerWF(l) && lastLineOK(l) && (c == RuneCR || c == RuneLF) && c == charAt(l, l.cursor)
@@ -246,3 +249,6 @@ package syntax
 //@   ensures result == e.currentLine
 
 //@ typeinv MemberExpr (self.RootType == RootTypeExpr ==> self.Root != nil) && (self.RootType == RootTypeProp ==> self.MemberID != nil) && (self.MemberType == MemberID ==> self.MemberID != nil) && (self.MemberType == MemberIndex ==> self.MemberIndex != nil)
+
+// length of the physical line break that starts at position i: CR LF and LF CR count as one break (C18)
+//@ fn breakLen(a rune, b rune) int = ((a == 13 && b == 10) || (a == 10 && b == 13)) ? 2 : 1
